@@ -126,6 +126,16 @@ func init() {
 			// reads beyond the end are guarded by has
 			has = And(has, Eq(x.byteAt(s, bv64(int64(i))), x.byteAt(p, bv64(int64(i)))))
 		}
+		// decided by the path condition (a SUPI "imsi-…", a string of digits): keep the offset concrete
+		if h := x.underPC(has); h.IsConst() {
+			has = h
+		} else if _, conc := concreteLen(s); conc {
+			if x.probeValid(has) {
+				has = True()
+			} else if x.probeValid(Not(has)) {
+				has = False()
+			}
+		}
 		off := Ite(has, bv64(int64(n)), bv64(0))
 		r := SliceV{Obj: s.Obj, Off: BvAdd(s.Off, off), Len: BvSub(s.Len, off), Cap: BvSub(s.Len, off), Nil: s.Nil, Str: true}
 		return r
